@@ -179,3 +179,14 @@ CHECKS['C18'] = (
     'config shaped as pmgr launching writes it (cores_per_node x SMT), reference Slurm host-list expansion, '
     'get_version shim; Yarn RM not reached; backup_list content not demanded',
     'DESIGN.md 4/C18')
+CHECKS['C05'] = (
+    'property-based testing (Hypothesis, seeded) with fault injection: generated workloads x fault plans x stage polling '
+    'orders through the composed client/agent pipeline, truthfulness oracle on the real Task objects and callbacks',
+    'random search over workloads, placements of one fault per task (client/agent staging errors, no launcher, launch '
+    'errors, non-zero exit, exception inside a per-task handler of six components, output staging errors), cancel requests '
+    'and the order in which pipeline stages run; every task ends in exactly one final state that matches exit code / fault / '
+    'request, bystanders of a faulty task finish DONE, a second workload completes afterwards; no counterexample in the '
+    'explored domain, coverage measured; not a proof',
+    SCHED_TB + '; ' + EXEC_TB + '; components assembled hollow in one process, Agent_0 queue hops are stand-ins, state/control '
+    'pubsubs joined by the real crosswire closures, stage polls are atomic (intra-component interleavings are C04/C07)',
+    'DESIGN.md 4/C05')
